@@ -46,14 +46,15 @@ void World::feed_input(const Input &in) {
 	case Input::MSG:
 		res.st.msgs_consumed++;
 		if (cl) cl->msgs_in++;
-		if (mode == "exact") { if (cl && !cl->no_expect) model.on_message(in.c, in.text); }
+		if (mode == "exact") { if (cl && !cl->no_expect && !model.on_message(in.c, in.text)) cl->closing = true; }
 		else if (mode == "ledger" && cl) ledger_request(*cl, in.text);
 		break;
 	case Input::WSFRAME:
 		if (mode == "exact") {
 			if (cl && cl->no_expect) break;
 			if (in.wf.fin && in.wf.opcode == 1 && in.wf.masked && in.wf.rsv == 0) { res.st.msgs_consumed++; model.on_message(in.c, in.wf.payload); }
-			else harness_error("websocket frame other than an unfragmented masked text frame in exact mode");
+			else if (in.wf.masked && in.wf.fin && in.wf.rsv == 0 && (in.wf.opcode == 9 || in.wf.opcode == 10) && in.wf.len <= 125) probe("ws_ping_pong_in_exact_mode");
+			else { probe("ws_protocol_violation_in_exact_mode"); model.on_peer_gone(in.c, true); if (cl) cl->closing = true; } // RFC 6455: the server must fail the connection
 		} else if (mode == "ledger" && cl) {
 			if (in.wf.fin && in.wf.opcode == 1 && in.wf.masked && in.wf.rsv == 0) { res.st.msgs_consumed++; ledger_request(*cl, in.wf.payload); }
 			else cl->no_expect = true; // protocol-level traffic: only survival is checked
@@ -280,10 +281,10 @@ void World::after_match(Client &cl, const Exp &e, const Frame &f) {
 		if (e.kind == Exp::RESP && e.rk == Exp::R_EITHER) { decided = true; ok = f.j.has("result"); }
 		else if (e.kind == Exp::ROUTED) { decided = true; ok = true; }
 		else if (e.kind == Exp::RESP && e.optional) { decided = true; ok = false; }
-		else if (e.kind == Exp::NOTIFY && e.optional) matched_optional[d]++;
+		else if (e.kind == Exp::NOTIFY && e.optional) { matched_optional[d]++; if (model.decisions[d].silent_refusal) { decided = true; ok = true; } }
 		if (decided) {
 			model.resolve_decision(d, ok);
-			if (!ok && matched_optional[d] > 0)
+			if (!ok && matched_optional[d] > 0 && !model.decisions[d].silent_refusal)
 				violation("C01", "notified-then-refused", "subscribers were told about an element whose add was then refused (" + model.decisions[d].what + ")");
 			for (auto &c2 : clients) {
 				for (size_t i = 0; i < c2.expq.size();) {
